@@ -172,8 +172,12 @@ def segment_siblings(rep, u):
     (rep.proved if ok else rep.violated)("R-SIB", fg, "segment-offset", desc, "size query subtracts it %d time(s); gather passes %s" % (len(sub), offs))
     # the empty short cut
     def shortcut(fn):
-        return sorted(canon(fn, b.cond) for b in fn.blocks.values() if b.cond is not None and "iov_index" in key(b.cond) and
-                      strip_casts(b.cond).get("op") == "==")
+        out = []
+        for b in fn.blocks.values():
+            c = strip_casts(b.cond) if b.cond is not None else None
+            if c is not None and c.get("k") == "bin" and c.get("op") == "==" and "p1->iov_index" in (canon(fn, c["x"]), canon(fn, c["y"])):
+                out.append(canon(fn, b.cond))
+        return sorted(out)
     desc = "both treat 'reader at the block after the write block' as empty"
     (rep.proved if shortcut(fa) == shortcut(fg) and shortcut(fa) else rep.violated)("R-SIB", fg, "empty-case", desc, "%s / %s" % (shortcut(fa), shortcut(fg)))
     return len(ka)
@@ -274,6 +278,121 @@ def writer_spec(rep, u):
     return n + m
 
 
+# ------------------------------------------------------------------ R-CONT: continuation of a gather into the next range
+
+GATHER_CLASSES = [
+    # name, blocks of the range, request, offset in first block, output slots, contiguous blocks
+    ("range-exhausted", [100, 100], 250, 0, 8, True),
+    ("range-exhausted-with-offset", [100, 100], 250, 30, 8, True),
+    ("next-block-does-not-fit", [100, 100, 300], 250, 0, 8, True),
+    ("first-block-covers-request", [300, 100], 250, 0, 8, True),
+    ("out-of-slots", [100, 100, 100], 250, 0, 1, False),
+]
+
+
+def continuation_rule(rep, u, caller="r_buf_data_get", gather="iovec_aggregate_ex", summer="r_buf_iovec_calc_size"):
+    """The gather helper stops for three reasons (its range is exhausted / the next block does not fit the request / no
+    output slot is left) and reports only (regions, remainder).  Where the caller continues with the following block range
+    using that remainder, the continuation may deliver blocks only in the first case: otherwise blocks of the first range
+    are skipped and later blocks are handed out as if they were next in sequence."""
+    fc, fg = need(u, caller), need(u, gather)
+    rep.functions.update([caller, gather])
+    IOV, RET, REM, BASE = 0x100000, 0x200000, 0x300000, 0x800000
+    gp = [p["n"] for p in fg.params]
+    # the continuation: a second gather whose request is the remainder variable of an earlier gather that dominates it
+    calls = [(pos, root, c) for pos, root, c, ps in fc.calls({gather})]
+    pairs = []
+    for p1, r1, c1 in calls:
+        a_last = strip_casts(c1["args"][-1])
+        if not (a_last.get("k") == "un" and a_last.get("op") == "&"):
+            continue
+        remv = key(strip_casts(a_last["e"]))
+        for p2, r2, c2 in calls:
+            if c2 is not c1 and key(strip_casts(c2["args"][2])) == remv and fc.pos_dominates(p1, p2):
+                pairs.append((p1, r1, c1, p2, r2, c2, remv))
+    if not pairs:
+        raise driver.AnalysisBroken("%s: no gather continues with the remainder of another" % caller)
+    n = 0
+    for p1, r1, c1, p2, r2, c2, remv in pairs:
+        retv = key(strip_casts(r1["x"])) if r1.get("k") == "bin" and r1["op"] == "=" else None
+        reqk = key(strip_casts(c1["args"][2]))
+        offk = key(strip_casts(c1["args"][3]))
+        slotk = key(strip_casts(c1["args"][5]))
+        # guards: branch conditions evaluated after the first gather on which the second depends
+        guards = []
+        for bid, blk in fc.blocks.items():
+            if blk.cond is None or len(blk.rsucc()) < 2 or bid not in fc.reachable_blocks():
+                continue
+            if not fc.pos_dominates(p1, (bid, len(blk.elems) - 1)) or not fc.dominates(bid, p2[0]) or bid == p2[0]:
+                continue
+            t_edge, f_edge = blk.succ[0], blk.succ[1]
+            reach_t = p2[0] in fc.reach_from([t_edge]) if t_edge is not None else False
+            reach_f = p2[0] in fc.reach_from([f_edge]) if f_edge is not None else False
+            if reach_t != reach_f:
+                guards.append((blk.cond, reach_t))
+        for cname, blocks, req, off, slots, contig in GATHER_CLASSES:
+            pe = r_stride.PE(u)
+            pos_ = BASE
+            for i, l in enumerate(blocks):
+                pe.memory[IOV + 16 * i] = pos_
+                pe.memory[IOV + 16 * i + 8] = l
+                pos_ += l + (0 if contig else 8)
+            ev, ret = pe.trace(fg, {gp[0]: IOV, gp[1]: len(blocks), gp[2]: req, gp[3]: off, gp[4]: RET, gp[5]: slots, gp[6]: REM})
+            inst = "continuation:%s" % cname
+            desc = ("%s continues into the next block range (line %s) only when the previous gather consumed its whole range "
+                    "[class %s: blocks %s, request %d, offset %d, %d slot(s)]" % (caller, c2.get("ln"), cname, blocks, req, off, slots))
+            n += 1
+            if isinstance(ret, str):
+                rep.undecided("R-CONT", fc, inst, desc, ret)
+                continue
+            rem = None
+            for e, b in ev:
+                for x, ps in walk(e):
+                    if x.get("k") == "bin" and x["op"] == "=" and key(strip_casts(x["x"])) == "*(%s)" % gp[6]:
+                        rem = r_mpt.eval_expr(x["y"], {}, pe._hook(b, {}))
+            consumed_all = ev[-1][1].get("i") == len(blocks) and ret != 0
+            if rem is None:
+                rep.undecided("R-CONT", fc, inst, desc, "the remainder the helper reports is not computable")
+                continue
+            # does the caller reach the second gather, and with what?
+            bind = {reqk: req, offk: off, slotk: slots, remv: rem}
+            if retv:
+                bind[retv] = ret
+            pc = r_stride.PE(u, call_default={summer: sum(blocks)})
+            taken = True
+            unknown = None
+            for cond, want in guards:
+                try:
+                    v = r_mpt.eval_expr(cond, {}, pc._hook(bind, {}))
+                    if bool(v) != want:
+                        taken = False
+                except (r_mpt.Unknown, KeyError, TypeError):
+                    unknown = key(cond)[:80]
+            if unknown and taken:
+                rep.undecided("R-CONT", fc, inst, desc, "guard %s not evaluable" % unknown)
+                continue
+            try:
+                slots2 = r_mpt.eval_expr(c2["args"][5], {}, pc._hook(bind, {}))
+            except (r_mpt.Unknown, KeyError, TypeError):
+                slots2 = None
+            delivers = taken and rem > 0 and (slots2 is None or slots2 > 0)
+            if consumed_all:
+                if rem > 0 and not taken:
+                    rep.violated("R-CONT", fc, inst, desc, "the first range is consumed entirely (remainder %d) but the guard stops the reader at the "
+                                 "round boundary" % rem)
+                else:
+                    rep.proved("R-CONT", fc, inst, desc, "range consumed, remainder %d: continuation is right" % rem)
+            elif delivers:
+                rep.violated("R-CONT", fc, inst, desc, "the helper stops before its range is exhausted (%d of %d blocks, %d regions, remainder %d) - "
+                             "outputs it also produces when the range is exhausted - and the second gather still runs with that remainder: "
+                             "blocks of the next round shorter than %d bytes are delivered while blocks of the previous round are skipped" % (
+                                 ev[-1][1].get("i") or 0, len(blocks), ret, rem, rem))
+            else:
+                why = "the guard is false" if not taken else ("remainder 0" if rem == 0 else "no output slot left")
+                rep.proved("R-CONT", fc, inst, desc, "range not exhausted and nothing more is delivered (%s)" % why)
+    return n
+
+
 def run(rep, tier):
     us = driver.load_units([common.src_unit(SRC)])
     rep.use_units(us)
@@ -281,6 +400,7 @@ def run(rep, tier):
     rep.floor("orderings (validity)", validity_siblings(rep, u), 1000)
     rep.floor("orderings (resync)", resync_rule(rep, u), 1000)
     rep.floor("block ranges", segment_siblings(rep, u), 3)
+    rep.floor("gather continuation classes", continuation_rule(rep, u), 5)
     rep.floor("writer classes", writer_spec(rep, u), 100)
     nfn, total = memsafe.run_scope(rep, tier, us)
     rep.floor("functions analysed", nfn, 15)
